@@ -106,6 +106,9 @@ def candidates(fnode):
     return m.i + 1
 
 
+BASE_TAIL = {"plot": "110 failed, 121 passed", "core": "1 failed, 236 passed, 12 skipped, 1 xpassed"}
+
+
 def test_work(job):
     """re-create a mutant in a scratch copy of the repository and run the part of the test-suite that can see it"""
     mid, relfile, qual, lineno, end_lineno, k, props = job
@@ -120,10 +123,13 @@ def test_work(job):
         if r is None:
             return None
         sel = "tests/test_plot.py" if "/plot/" in relfile else "tests/test_gen tests/test_manage.py tests/test_utils.py"
-        p = subprocess.run("cd %s && /venv/bin/python -m pytest -x -q -p no:cacheprovider --timeout=300 %s 2>&1 | tail -3" % (tmp, sel), shell=True, capture_output=True, text=True, timeout=1500)
+        # no -x: some tests fail on the unchanged tree here (bokeh absent, benchmarker); a mutant is killed when the
+        # failed / passed counts differ from the unchanged tree's
+        p = subprocess.run("cd %s && /venv/bin/python -m pytest -q -p no:cacheprovider --timeout=300 %s 2>&1 | tail -3" % (tmp, sel), shell=True, capture_output=True, text=True, timeout=1500)
         out = p.stdout
         last = out.strip().splitlines()[-1] if out.strip() else ""
-        killed = (" failed" in last) or (" error" in last) or ("passed" not in last)
+        base = BASE_TAIL["plot" if "/plot/" in relfile else "core"]
+        killed = not last.startswith(base)
         r["tests"] = "killed" if killed else "survived"
         r["tests_tail"] = out.strip().splitlines()[-1][:160] if out.strip() else ""
         return r
@@ -195,7 +201,15 @@ def main():
     ap.add_argument("--out", required=True)
     ap.add_argument("--tests-for", default=None, help="JSON lines from an earlier run: run the test-suite on the silent mutants in it (filter: test-killed / survived)")
     ap.add_argument("--files", default=None, help="comma separated substrings of file names to restrict --tests-for to")
+    ap.add_argument("--recheck", default=None, help="JSON lines from an earlier run: run the checks again on exactly those mutants")
     a = ap.parse_args()
+    if a.recheck:
+        jobs = [tuple(json.loads(l)["job"]) for l in open(a.recheck)]
+        with open(a.out, "w") as fo, ProcessPoolExecutor(a.j) as ex:
+            for r in ex.map(work, jobs, chunksize=2):
+                if r is not None:
+                    fo.write(json.dumps(r) + "\n")
+        return
     if a.tests_for:
         rows = [json.loads(l) for l in open(a.tests_for)]
         jobs = [tuple(r["job"]) for r in rows if r["outcome"] == "silent" and "job" in r and (not a.files or any(x in r["file"] for x in a.files.split(",")))]
